@@ -65,6 +65,7 @@ pub fn run_any_shard(spec: &ShardSpec, cur: Option<&str>, trace: Option<(u64, St
         "e3" => shard::result_of(spec, crate::pairs::run_e3(spec, cur)),
         "e3s" => shard::result_of(spec, crate::pairs::run_e3s(spec, cur)),
         "c14" => shard::result_of(spec, crate::c14::run_c14(spec, cur)),
+        "e4" => shard::result_of(spec, crate::faults::run_e4(spec, cur)),
         e => panic!("unknown engine {}", e),
     }
 }
@@ -103,7 +104,7 @@ pub fn replay_any(spec: &ShardSpec, hist: &[String], quiet: bool) -> i32 {
                 }
             }
         }
-        "e3" | "e3s" | "c14" => {
+        "e3" | "e3s" | "c14" | "e4" => {
             let ops = match shard::strings_to_ops(hist) {
                 Ok(o) => o,
                 Err(e) => {
@@ -114,6 +115,7 @@ pub fn replay_any(spec: &ShardSpec, hist: &[String], quiet: bool) -> i32 {
             let r = match spec.engine.as_str() {
                 "e3" => crate::pairs::replay_e3(spec, &ops),
                 "e3s" => crate::pairs::replay_e3s(spec, &ops),
+                "e4" => crate::faults::replay_e4(spec, &ops),
                 _ => crate::c14::replay_c14(spec, &ops),
             };
             match r {
@@ -159,7 +161,7 @@ fn base_assumptions() -> Vec<String> {
 pub fn plan(prop: &str, tier: &str) -> Option<Plan> {
     let q = tier != "thorough";
     let mut s: Vec<ShardSpec> = vec![];
-    let level = "model_checking";
+    let level = if prop == "C07" { "fault_enumeration" } else { "model_checking" };
     let bounds;
     match prop {
         "C01" => {
@@ -463,6 +465,39 @@ pub fn plan(prop: &str, tier: &str) -> Option<Plan> {
                 s.push(e2(prop, "u32", H_LOW, "ch3+shape2", &fl, 2, "chk", 1500.0));
                 s.push(e2(prop, "zst", H_GOOD, "ch3+shape2", &fl, 1, "chk", 300.0));
                 bounds = json!({"E1": "chains of length <=3 on every key class at every point of the growth path to N=130 and after one shaping deviation to N=40; on every concrete key to N=40", "E2": "fixpoint u=3 (length <=2) / u=2 (length <=3); ZST"});
+            }
+        }
+        "C07" => {
+            let a = "look1+mut+ch1+bulk+shape+iterlite";
+            let mk = |hk: u8, n: usize, fam: usize, parts: usize, prof: &str, per_op: bool, secs: f64| -> Vec<ShardSpec> {
+                (0..parts)
+                    .map(|p| {
+                        let mut x = e1(prop, "tk", hk, 0, a, &["cursor"], n, 0, 0, prof, secs);
+                        x.engine = "e4".into();
+                        x.extra.insert("fam".into(), fam.to_string());
+                        x.extra.insert("part".into(), p.to_string());
+                        x.extra.insert("parts".into(), parts.to_string());
+                        x.extra.insert("per_op_cont".into(), if per_op { "1" } else { "0" }.into());
+                        x
+                    })
+                    .collect()
+            };
+            if q {
+                s.extend(mk(H_GOOD, 64, 160, 6, "chk", false, 45.0));
+                s.extend(mk(H_LOW, 33, 48, 3, "chk", false, 45.0));
+                s.extend(mk(H_CONST, 20, 24, 1, "chk", false, 45.0));
+                s.extend(mk(H_GOOD, 33, 24, 5, "asan", false, 45.0));
+                s.extend(mk(H_TAG, 12, 6, 1, "asan", false, 45.0));
+                s.extend(mk(H_GOOD, 12, 12, 1, "chk", true, 45.0));
+                bounds = json!({"E4": "family: growth path to N=64 + states directly after one shaping deviation (<=160 states, chk; N=33, <=24 states asan); every op of the C01-style alphabet (class keys) x every callback kind x every crash point; post-fault oracle, a tour of 12 calls, the growth path across the next resize, shrink/clone/drain; per-call continuations for N<=12"});
+            } else {
+                for &hk in &HS4 {
+                    s.extend(mk(hk, 64, 300, 8, "chk", false, 1500.0));
+                    s.extend(mk(hk, 40, 120, 8, "asan", false, 1500.0));
+                }
+                s.extend(mk(H_GOOD, 33, 60, 8, "chk", true, 1500.0));
+                s.extend(mk(H_GOOD, 130, 200, 8, "chk", false, 1500.0));
+                bounds = json!({"E4": "family: growth path to N=64/130 + post-deviation states (<=300 states chk, <=120 asan), 4 hashers; every op x every callback kind x every crash point; per-call continuations on <=60 states"});
             }
         }
         "C11" => {
